@@ -358,7 +358,5 @@ def run(tier, seed):
 
 
 def replay(path):
-    j = json.load(open(path))
-    print(json.dumps(j, indent=1)[:3000])
-    print('re-run the quick tier: the case is part of the enumerated space')
-    return 1
+    import sys
+    return common.rerun(PROP, path, sys.modules[__name__])
